@@ -7,7 +7,7 @@ from .. import rules
 from ..rules import (callee_is, object_of, field_name, call_args, mentions_field, mentions_call,
                      mentions_var, Wrapper, exempt_edges, loops_in, loop_header,
                      loop_iteration_must_pass, enclosing_loops)
-from ..facts import children, strip_all_casts, strip_casts, walk, CALL_KINDS
+from ..facts import children, strip_all_casts, strip_casts, walk, CALL_KINDS, AnalysisBroken
 
 EXEMPT_ASSIGN = {
     # class (qualified, no template args) or exact class name -> reason
@@ -532,8 +532,14 @@ def r10_value_constraint_scans(chk, prog):
         cfg = f.cfg
         for loop in loops_in(f):
             kids = children(loop)
-            rng = kids[0] if loop.get('k') == 'CXXForRangeStmt' else None
-            if rng is None or not mentions_field(rng, 'mArgHandlers'):
+            if loop.get('k') == 'CXXForRangeStmt':
+                over = mentions_field(kids[0], 'mArgHandlers')
+            elif loop.get('k') == 'ForStmt':
+                # iterator / index form: the loop condition compares against the end / size of mArgHandlers
+                over = any(isinstance(x, dict) and mentions_field(x, 'mArgHandlers') for x in loop.get('c', [])[:3])
+            else:
+                over = False
+            if not over:
                 continue
             n += 1
             h = loop_header(cfg, loop)
@@ -550,6 +556,33 @@ def r10_value_constraint_scans(chk, prog):
             chk.check(not off, 'R10', f.name, 'the end check of a value constraint compares every argument of the '
                       'constraint (with every other)', f.loc(loop), '; '.join(off))
     chk.require(n >= 2, 'loops over the handlers of a value constraint found: %d' % n)
+
+
+def r11_command_line_counts(chk, prog):
+    """every value of the command line counts against the cardinality: at every call of assignValue() in the
+    handler the ignore_cardinality argument evaluates to false when the read mode is 'commandLine' (exhaustive
+    evaluation of the argument expression over the read-mode values)"""
+    from ..boolshape import Interp, NeedAtom, Unsupported
+    en = prog.enums.get('celma::prog_args::Handler::ReadMode')
+    chk.require(en is not None, 'enum Handler::ReadMode not found')
+    vals = {e['name']: e['val'] for e in en['enumerators']}
+    chk.require('commandLine' in vals, 'Handler::ReadMode::commandLine not found')
+    n = 0
+    for f in prog.functions:
+        if f.classq != 'celma::prog_args::Handler':
+            continue
+        for c in f.calls_to('TypedArgBase::assignValue'):
+            n += 1
+            arg = call_args(c)[0]
+            it = Interp(f, {'this.mReadMode': vals['commandLine']})
+            try:
+                v = it.ev(arg)
+            except (NeedAtom, Unsupported) as e:
+                raise AnalysisBroken('ignore_cardinality expression not interpretable in %s: %s' % (f.key, e))
+            chk.check(not v, 'R11', f.name, 'a value read from the command line is counted against the cardinality '
+                      '(ignore_cardinality is false in read mode commandLine)', f.loc(c),
+                      'for mReadMode == commandLine the argument expression yields %s' % v)
+    chk.require(n >= 2, 'assignValue call sites in Handler: %d' % n)
 
 
 def run(chk):
@@ -580,5 +613,7 @@ def run(chk):
     r9_constraint_scans(chk, prog)
     chk.rule('R10', 'value constraints compare every argument of the constraint at the end', 2)
     r10_value_constraint_scans(chk, prog)
+    chk.rule('R11', 'command-line values are never exempt from the cardinality', 2)
+    r11_command_line_counts(chk, prog)
     from . import c02_shapes
     c02_shapes.run(chk, prog)
